@@ -402,6 +402,7 @@ def run_scenario(ctx, rnd, s, npoints, all_batches):
         f0 = np.median(np.array(amp(data[0])))
         scale = math.sqrt(1e-6 / f0)
         cfg.set_params({k: float(v) * scale for k, v in cfg.get_params().items() if k.endswith("_total_0r")})
+    keep = []
     for pi in range(npoints):
         x = random_point(rnd, cfg.vm, scale)
         if s.model in ("cached_int", "cached_amp"):
@@ -410,9 +411,8 @@ def run_scenario(ctx, rnd, s, npoints, all_batches):
         if not all_batches:
             others = [rnd.choice(others)]
         for bi, batch in enumerate([b0] + others):
-            if s.model in ("cached_int", "cached_amp", "cfit_cached"):
-                cfg._get_model.cache_clear()  # caches are keyed by id(); rebuild so that stale entries cannot be hit
             fcn = cfg.get_fcn(all_data=all_data, batch=batch)
+            keep.append(fcn)  # the cached models key their caches by id(batch list): keep every FCN alive so ids are never reused
             fcns = fcn.fcns if hasattr(fcn, "fcns") else [fcn]
             parts = []
             if bi == 0:
@@ -492,6 +492,9 @@ def plan(ctx, rnd):
         sc.append((sid, "default", 3, True, False)); sid += 1
         sc.append((sid, "default", 1, False, True)); sid += 1   # densities around the clip threshold
         sc.append((sid, "simple_clip", 1, False, True)); sid += 1
+    only = os.environ.get("VERIF_ONLY")  # debugging aid: restrict to some likelihood models
+    if only:
+        sc = [x for x in sc if x[1] in only.split(",")]
     return sc
 
 
@@ -573,7 +576,7 @@ def _worker(args):
     try:
         with contextlib.redirect_stdout(io.StringIO()):
             s = make_scenario(acc, srnd, sid, m, ngroup, gauss, clip)
-            cs, rs = run_scenario(acc, srnd, s, 1 if tier == "quick" else 2, all_batches=(ngroup == 1 or tier != "quick"))
+            cs, rs = run_scenario(acc, srnd, s, 1 if tier == "quick" else 2, all_batches=((ngroup == 1 and m not in ("cached_int", "cached_amp", "cfit_cached")) or tier != "quick"))
         return {"item": item, "cases": cs, "records": rs, "dist": acc.dist, "distinct": acc.distinct, "evaluations": acc.evaluations,
                 "error": None, "dt": time.time() - t0, "fails": acc.fails}
     except Exception:
@@ -613,7 +616,9 @@ def run(ctx):
                      site="get_fcn(%s)" % m, fingerprint=m + ":raise", failing_input=None)
             continue
         cases += r["cases"]; records += r["records"]
-    ctx.log("implementation stage: %d scenarios, %d goals (slowest scenario %.1fs)" % (len(results), len(cases), max(r["dt"] for r in results)))
+    slow = sorted(results, key=lambda r: -r["dt"])[:3]
+    ctx.log("implementation stage: %d scenarios, %d goals; slowest: %s" % (
+        len(results), len(cases), ", ".join("s%d %s x%d %.0fs" % (r["item"][0], r["item"][1], r["item"][2], r["dt"]) for r in slow)))
     ctx._records = records
     for c in cases[:: max(1, len(cases) // 5)]:
         ctx.sample({"case": c[0], "goal": c[1][:300] + " ...", "meta": {k: v for k, v in c[3].items() if k in ("layer", "site", "model", "batch")}})
